@@ -471,3 +471,15 @@ func SkipConstrainedJSON(fd protoreflect.FieldDescriptor) bool {
 	}
 	return sub != nil && ConstrainedJSON[sub.FullName()]
 }
+
+// DrawScalarOrZero draws a scalar for fd, the zero value a quarter of the time (setting an
+// explicit-presence field to its default, or an implicit-presence field to "nothing").
+func DrawScalarOrZero(t *rapid.T, fd protoreflect.FieldDescriptor, o MsgOpts) model.Val {
+	if rapid.IntRange(0, 3).Draw(t, "zero?") == 0 {
+		if fd.Kind() == protoreflect.EnumKind && fd.Enum().IsClosed() && fd.Enum().Values().ByNumber(0) == nil {
+			return model.Val{U: uint64(int64(fd.Enum().Values().Get(0).Number()))}
+		}
+		return model.Val{}
+	}
+	return drawScalar(t, fd, o)
+}
